@@ -61,9 +61,9 @@ theorem tokTable_foldEq {a b : Array Char} (h : FoldEq lower a b) (rx : Rx) (tok
     simp only [tokTable, Array.getElem_ofFn]
     apply tokRow_foldEq h
     · intro lit ic ht
-      exact hstr i lit ic (by rw [Array.getElem?_eq_getElem hi, ht])
+      exact hstr i lit ic (by rw [Array.getElem?_eq_getElem hi]; exact congrArg some ht)
     · intro ht p
-      exact hre i (by rw [Array.getElem?_eq_getElem hi, ht]) a b h p
+      exact hre i (by rw [Array.getElem?_eq_getElem hi]; exact congrArg some ht) a b h p
 
 theorem WsSafe.stripEol {ws : List Char} (h : WsSafe lower ws) : WsSafe lower (stripEol ws) := by
   intro c hc d hd
@@ -115,28 +115,66 @@ theorem wsOk_of_neutral {rx : Rx} {L : Lang} (hw : WsNeutral lower L) (a : Array
   strip := fun _ h => h.stripEol
   node := hw.node
 
-theorem wsSafeOn_sound {cs ws : List Char} (h : wsSafeOn lower cs ws = true) :
-    ∀ c, c ∈ ws → ∀ d, d ∈ cs → lower d = lower c → d = c := by
-  intro c hc d hd e
-  unfold wsSafeOn at h
-  have := List.all_eq_true.mp (List.all_eq_true.mp h c hc) d hd
-  simp only [Bool.or_eq_true, bne_iff_ne, ne_eq, beq_iff_eq] at this
-  rcases this with h1 | h1
-  · exact absurd e h1
-  · exact h1
+theorem lookup_mem {tab : List (Char × Char)} {d v : Char} (h : tab.lookup d = some v) : (d, v) ∈ tab := by
+  induction tab with
+  | nil => simp at h
+  | cons kv tab ih =>
+    obtain ⟨k, x⟩ := kv
+    by_cases hk : d = k
+    · subst hk
+      simp only [List.lookup_cons_self, Option.some.injEq] at h
+      subst h
+      exact List.mem_cons_self
+    · have : (d == k) = false := by simpa using hk
+      simp only [List.lookup_cons, this] at h
+      exact List.mem_cons_of_mem _ (ih h)
+
+theorem wsSafeTab_sound {tab : List (Char × Char)} {ws : List Char} (h : wsSafeTab tab ws = true) :
+    WsSafe (lowerTab tab) ws := by
+  intro c hc d e
+  unfold wsSafeTab at h
+  have hcs := List.all_eq_true.mp h c hc
+  have hkv : ∀ k v, (k, v) ∈ tab → k ≠ c ∧ v ≠ c := by
+    intro k v hm
+    have := List.all_eq_true.mp hcs (k, v) hm
+    simpa using this
+  -- `c` is not a key of the table
+  have hlc : lowerTab tab c = c := by
+    unfold lowerTab
+    cases hl : tab.lookup c with
+    | none => rfl
+    | some v => exact absurd rfl (hkv c v (lookup_mem hl)).1
+  rw [hlc] at e
+  unfold lowerTab at e
+  cases hl : tab.lookup d with
+  | none => simpa [hl] using e
+  | some v =>
+    rw [hl] at e
+    exact absurd e (hkv d v (lookup_mem hl)).2
+
+theorem wsNeutralB_sound {tab : List (Char × Char)} {L : Lang} (h : wsNeutralB tab L = true) :
+    WsNeutral (lowerTab tab) L := by
+  unfold wsNeutralB at h
+  rw [Bool.and_eq_true, List.all_eq_true] at h
+  refine ⟨wsSafeTab_sound h.1, ?_⟩
+  intro id nd hnd w hw
+  have hm : nd ∈ L.nodes.toList := List.mem_of_getElem? (by rw [Array.getElem?_toList]; exact hnd)
+  have := h.2 nd hm
+  rw [hw] at this
+  exact wsSafeTab_sound this
 
 theorem allIc_iff (toks : Array Tok) : allIc toks = true ↔ AllIc toks := by
   unfold allIc AllIc
-  rw [Array.all_eq_true]
+  rw [List.all_eq_true]
   constructor
   · intro h i lit ic hi
-    obtain ⟨hlt, he⟩ := Array.getElem?_eq_some_iff.mp hi
-    have := h i hlt
-    rw [he] at this
-    exact this
-  · intro h i hlt
-    cases ht : toks[i] with
-    | str lit ic => exact h i lit ic (by rw [Array.getElem?_eq_getElem hlt, ht])
+    have hm : Tok.str lit ic ∈ toks.toList := List.mem_of_getElem? (by rw [Array.getElem?_toList]; exact hi)
+    exact h _ hm
+  · intro h t ht
+    obtain ⟨i, hi⟩ := List.mem_iff_getElem?.mp ht
+    rw [Array.getElem?_toList] at hi
+    cases t with
+    | str lit ic => exact h i lit ic hi
     | re => rfl
     | other => rfl
 
